@@ -49,6 +49,8 @@ def panic_rule(ctx, rid, entries=None, what='the text entry points', config='def
             row = table.get(key)
             if row:
                 n_table += 1
+                for cited in re.findall(r'\bR\d\d\.\d+[a-z]?\b', row.get('why', '')):
+                    ctx.cited_rules.setdefault(cited, key)
                 cats[row['category']] = cats.get(row['category'], 0) + 1
                 continue
             why = 'not discharged'
@@ -333,6 +335,17 @@ def check(ctx):
     from . import c03
     c03.r_binders(ctx, 'R06.10')
     c04.group_rule(ctx, 'R06.11', r'^ast::Scope::\w+(::\{closure#\d+\})*$', 'scope mutators: the state discipline their assertions rely on (is_main set and reset, stack pushed before use)', 10)   # insert_variable's expect("Stack is empty") relies on a scope pushed before the binder is inserted   # Match::scrutinee_type's unreachable!() relies on the normalised arm order
+    # preconditions cited by the discharges: scope stacks are pushed before they are used or popped; positions come from the checked constructors only
+    from . import c10, c20, c09, c12, c07, c01, satisfy
+    c10.r_pairing(ctx)
+    c20.r_provenance(ctx)
+    c09.r_call_site(ctx)            # admitted counter widths: index arithmetic of compile::for_while
+    c12.r_parameters(ctx)           # get_argument's expect: parameter nodes recorded, arguments checked, arguments reach every scope
+    c12.r_instantiate_gate(ctx, 'R12.2')
+    c12.r_argument_scopes(ctx)
+    satisfy.r_single_caller(ctx, 'R05.5m', 'ast::Scope::push_main_scope', {'<ast::Function as ast::AbstractSyntaxTree>::analyze'})
+    c07.r_uint_tables(ctx, only={'parse', 'grammar', 'display'})      # UIntType::parse covers the literal set of the unsigned_type rule
+    c01.schema_rules(ctx, only={'compile::<impl ast::Program>::compile': r''})
     r_shape_selftest(ctx)
     n = panic_rule(ctx, 'R06.1')
     ctx.floor('R06.1', 'panic-capable sites in reachable functions', n[0], 200)
